@@ -60,7 +60,9 @@ class Query:
     in_u32() are symbolic.  witnesses: names of WITNESS_AT points that must be reachable (twin run)."""
 
     def __init__(self, name, defs=(), witnesses=(), unwind=2, timeout=900, est_gb=3, hardcap=40,
-                 extra_cbmc=(), sample=None, profile=None, required_sat=(), harness_unwind=18, trust_solver=False, expect_fail=False, floor=None):
+                 extra_cbmc=(), sample=None, profile=None, required_sat=(), harness_unwind=18, trust_solver=False, expect_fail=False, floor=None, confirm=None):
+        self.confirm = confirm      # callable(runner, unit, query, desc, vin) -> (confirmed, how): a solver counterexample of this query only counts
+                                    # when the callable reproduces its cause on the real code (C09 stale-view queries: a ThreadSanitizer run)
         self.name = name
         self.floor = floor          # {regex on loop id: minimal bound given up front} for loops whose need the concrete profile cannot see
         self.defs = list(defs)
@@ -741,6 +743,21 @@ class Runner:
         if q.trust_solver and not hang and (desc.startswith('vstd model:') or desc.startswith('model limit:')):
             # not a property failure: the run reached something the model does not interpret (e.g. synchronisation through atomics in C09)
             self.inconclusive.append('%s/%s: %s' % (u.name, q.name, desc))
+            return
+        if q.trust_solver and not hang and q.confirm is not None:
+            ok, how = q.confirm(self, u, q, desc, vin)
+            rec.setdefault('counterexamples', []).append({'cbmc_property': prop, 'desc': desc, 'vin': vin, 'reproduced': ok, 'how': how})
+            if not ok:
+                # a candidate of a deliberately over-approximating query that the real code does not bear out: dropped, no alarm
+                self.messages.append('candidate counterexample of %s/%s not confirmed on the real code (%s): discarded' % (u.name, q.name, how))
+                self.say('[%s]   candidate (%s/%s) not confirmed on the real code: %s' % (self.prop, u.name, q.name, how))
+                return
+            os.makedirs(os.path.join(EVID, 'replay'), exist_ok=True)
+            path = os.path.join(EVID, 'replay', '%s_%s_%s_%d.json' % (self.prop, u.name, re.sub(r'\W', '_', q.name), len(self.violations)))
+            json.dump({'property': self.prop, 'unit': u.name, 'query': q.name, 'defs': defs, 'vin': vin, 'cbmc_property': prop, 'assertion': desc, 'how': how},
+                      open(path, 'w'), indent=1)
+            self.say('[%s]   solver counterexample (schedule) confirmed on the real code: %s | %s' % (self.prop, desc, how[:400]))
+            self.violations.append(path)
             return
         if q.trust_solver and not hang:
             os.makedirs(os.path.join(EVID, 'replay'), exist_ok=True)
